@@ -6,7 +6,14 @@ class C05(EditProp):
     coq_targets = ["props/C05.vo"]
     props_file = "props/C05.v"
     design_ref = "DESIGN.md §4 C05, §8"
-    level_text = "(see props/C05.v) add/insert/remove paragraph: refinement to list operations, separation invariant, re-read; tied to the code by the deb822-edit stream."
+    level_text = ("Coq theorems, for every finite history of add / insert(i) / remove(i) (every index, in and out of range) interleaved with "
+                  "the field edits of C04, from the empty document or any parsed well-formed document (any live document): the live object "
+                  "reports exactly the list-model content (push, insert(i) with append beyond the end, remove(i) with no-op beyond the end); "
+                  "each step changes the layout exactly as a_add/a_insert_para/a_remove_para say (new empty paragraph + one blank line, resp. the "
+                  "removed paragraph + one following blank line; every other paragraph, comment and blank line untouched, except that appending "
+                  "first terminates an unterminated last line); the result is again a live document, so paragraphs stay separated by a blank "
+                  "line and the printed text re-reads without error to the same non-empty paragraphs in order. Handle aliasing (the Paragraph "
+                  "returned by add/insert edits the document) is checked by the deb822-edit stream.")
     level_note = "Model: Deb822::{add_paragraph, insert_paragraph, remove_paragraph, convert_index, delete_trailing_space, FromIterator} in src/lossless.rs over coq/model/Deb822Edit.v."
     rule = ("deb822-edit: initial document (new / from pairs / parsed well-formed document incl. leading/trailing comments, several blank lines, "
             "missing final newline) x random history (1-12 ops) of add/insert(i)/remove(i) with i in and out of range interleaved with field edits; "
